@@ -112,10 +112,10 @@ def run(ctx):
     sym = ["-", "'", '"', " ", "a", "\x0c", "&", "é", "²", "_", "م"]
     strings = [""]
     for n in range(1, L + 1):
-        if n <= 4 or ctx.tier == "thorough":
+        if n <= 4 or (n <= 5 and ctx.tier == "thorough"):
             strings += ["".join(t) for t in itertools.product(sym, repeat=n)]
         else:
-            strings += ["".join(ctx.rng.choice(sym) for _ in range(n)) for _ in range(3000)]
+            strings += ["".join(ctx.rng.choice(sym) for _ in range(n)) for _ in range(ctx.scale(3000, 20000))]
     strings += ["-" * n for n in range(8, 40)]
     for dd in (False, True):
         for de in (False, True):
